@@ -26,6 +26,61 @@ CHECKS = {
         "Decides the structural sources of render-to-render differences: (R1) no range over a map (or unsorted reflect MapKeys) feeds ordered output; (R4) pooled objects are reset before Put and not used after; (R5) no clock/random value flows into text, emitted attributes or a writer; (R6) memoised values depend only on their cache key; (C09.R2/R3) rendering modifies neither the loaded templates nor the caller's data.",
         "Not decided: byte identity of two renders as such; after-effects of failed renders beyond pool hygiene. Trusted: go/ssa, call graph, sort.* sorts.",
     ),
+    "C03": (
+        "type-switch table extraction from the typed AST, origin analysis of every IsTruthy argument, edge-dominance guards and CFG reachability in the chain walker and sibling scans",
+        "Decides: (R1) the truthiness table has a genuine zero test for every numeric width plus bool/string/nil; (R2) every condition position decides through that one table, on the evaluated value itself; (R3) orphan v-else/v-else-if never reach the generic rendering path; (R4) after a chain member was rendered no other member's evaluation is reachable; (R5) sibling scans inspect directives only of element nodes and the v-for look-ahead stops at the first element.",
+        "Not decided: which branch is chosen (first truthy), skip-count arithmetic, sibling preservation. Trusted: go/types, go/ssa.",
+    ),
+    "C04": (
+        "integer balance dataflow over Push/Pop with defers, dominance of bindings by the push, field-ownership scan, loop-direction and overlay-order checks on SSA, binding table of the v-for callback",
+        "Decides: (R1) pushed scopes are popped on every exit; (R2) bindings and evaluation happen under the pushed scope; (R3) only *Stack touches the scope list (one save/restore exception); (R4) Lookup and EnvMap agree on precedence; (R6) index/item binding of the v-for forms; plus C03.R5 (look-ahead for v-else) and C10.R1 (map iteration order).",
+        "Not decided: one instance per item, index values, typed collections. Trusted: go/ssa, call graph.",
+    ),
+    "C05": (
+        "balance dataflow, CFG ordering of merge steps in the include evaluator, must-pass (dominance) of the :required check and of DOM preparation before evaluation",
+        "Decides: (C04.R1/R2) the props scope is popped on every exit and bindings go into it; (R2) props are pushed before front-matter is written and both precede evaluation; (R3) the :required check dominates evaluation of a template root and its error names the variable; (R4) every parsed DOM is shorthand-resolved and id-stamped before evaluation.",
+        "Not decided: JSON decoding of props, typed values of bound props, visibility of includer variables. Trusted: go/ssa.",
+    ),
+    "C06": (
+        "forward value-flow taint from the shared SlotContent.Nodes storage to evaluator results, guard analysis of the slot-scope assignment, CFG reachability of the fallback",
+        "Decides: (R1) supplied slot nodes reach the output only through an evaluator call on a deep clone; (R2) the component's slot scope comes from its own include tag (open known finding); (R3) no path that found supplied content reaches the fallback; (C04.R1/R2) scoped props are pushed and popped.",
+        "Not decided: slot-name matching, destructuring, per-iteration props. Trusted: go/ssa, call graph.",
+    ),
+    "C07": (
+        "loop-counter/guard recognition on SSA, destination-writer use analysis, constant agreement, CFG must-pass of the key deletion, origin of the resolution anchor",
+        "Decides: (R1) the layout loop has a growing counter compared with a constant whose overflow returns an error without output; (R2) links render into per-iteration buffers and the destination is used once, by the final copy; (R3) the default-layout constant agrees with the probe and is guarded; (R4) resolution order and the loop-carried anchor file; (R5) the consumed key is deleted on every continue path and the accumulated data map is never replaced.",
+        "Not decided: data/front-matter visibility across links beyond R5, content correctness. Trusted: go/ssa.",
+    ),
+    "C08": (
+        "CFG order of ranged merge sources, effect check of child constructors, origin analysis of root scopes, consumption of loader front-matter results",
+        "Decides: (R1) each merge site writes its sources lowest precedence first; (C04.R4) Lookup/EnvMap precedence agreement; (R3) New/Load never write to the parent and Fill's root scope is a fresh map; (R4) loaded front-matter is never dropped and Template renders go through the engine path that re-applies it.",
+        "Not decided: fall-through for absent keys, struct/JSON-tag addressing. Trusted: go/ssa.",
+    ),
+    "C14": (
+        "reader/filter table agreement (constants extracted from SSA), slice-bound check of the bracket unwrap, edge-dominance guards in the attribute and v-show handlers",
+        "Decides: (R1) every directive/internal key the evaluator uses is filtered by the serialiser; (R2) bracketed attributes bypass the filter and are unwrapped by exactly one byte each side; (R3) a bound result is recorded only under IsTruthy; (R6) display:none exactly on the falsy edge; plus C10.R1 (attribute/style order) and C11.R1 (style merge cannot panic).",
+        "Not decided: class/style merge results, kebab-casing, declaration parsing. Trusted: go/ssa.",
+    ),
+    "C15": (
+        "guard analysis of the single cache update, origin analysis of stored and returned values, entering-edge analysis of the hit path",
+        "Decides: (R1) the cache is updated once, only after successful load and parse, with values of this call, and the reload path returns the fresh data; (R2) a hit is entered only through mtime equality (or the documented zero-mtime case) and never after a failed Stat; (C09.R7) published entries are immutable; (C10.R6) cached values depend only on the key.",
+        "Not decided: equal-mtime edits (documented), Load-vs-render skew. Trusted: go/ssa, time.Time.Equal.",
+    ),
+    "C16": (
+        "dominance of id stamping before evaluation, guard analysis of the seen-set update, origin of the seen set, forward taint of clock values",
+        "Decides: (C05.R4) every DOM entering evaluation has ids stamped; (R4) a v-once element is marked when first reached, under v-once and not-seen only; (C09.R6) the seen set is fresh per render and shared only along the include chain; (C09.R2/C10.R5) ids are not written into shared templates and no clock value reaches the output.",
+        "Not decided: that distinct elements get distinct ids at run time, loop-iteration counting. Trusted: go/ssa.",
+    ),
+    "C17": (
+        "structural checks of the stack primitives on SSA, reflect-precondition guards, lockset of the path cache",
+        "Decides: (C04.R1-R4) balance, ownership, precedence agreement; (R2) Push/Pop/Copy primitives and EnvMap freshness; (R6) absence only after every resolution strategy; (C11.R2) path steps guard their reflect calls; (C09.R1/C10.R4) path-cache locking and pool hygiene.",
+        "Not decided: model conformance over operation sequences, equality with Go indexing for every nesting. Trusted: go/ssa.",
+    ),
+    "C18": (
+        "nil-guard dominance, guard exactness of the merge store, set-construction and sort dominance, control dependence of the error return",
+        "Decides: (R1) every layer use is nil-guarded; (R2) Open returns the first success and ErrNotExist otherwise, ReadDir stores only under !exists in ascending layer order; (R3) results are built from a name-keyed set and sorted; (R4) existence is not decided by len(merged).",
+        "Not decided: file-over-directory shadowing semantics, metadata equality, glob syntax. Trusted: go/ssa, sort.*.",
+    ),
 }
 
 PENDING_REASON = "check for this property is being built in this session (see DESIGN.md section 2 for the planned rules); not claimed until its rules run clean on the unchanged tree"
